@@ -1,7 +1,586 @@
-import RbdlProofs.Lemmas.Rot
-/- C17 — property theorems (being filled in) -/
+import RbdlProofs.Lemmas.L17
+import RbdlProofs.Lemmas.L17Body
+import RbdlProofs.Lemmas.L17Asm
+import RbdlProofs.Lemmas.L17Vel
+import RbdlProofs.Lemmas.L17Ex
+import RbdlProofs.Lemmas.L17Kkt
+import RbdlProofs.Lemmas.L17KktEx
+/-
+  C17 — iterative solvers: what a reported success guarantees.
+
+  The theorems are about the code-shaped model `Rbdl/Iter.lean` of `InverseKinematics` (both
+  overloads), `CalcAssemblyQ`, `CalcAssemblyQDot`.  The dense linear solver is a parameter `solve` of the
+  model about which NOTHING is assumed (except in §5, where "the solver returned a solution" is the
+  hypothesis): soundness of a reported success does not depend on the quality of the solver.
+  The model is tied to the implementation by `./check C17` (one modelled pass from the
+  implementation's own iterates must reproduce flag and next iterate; see Rbdl/IterDriver.lean).
+
+  Norm tests are made on squared norms, `normLt s² tol := 0 < tol ∧ s² < tol²`; §1 shows that this is
+  the C++ test `sqrt(s²) < tol`.
+
+  WHAT THE CODE GUARANTEES (and what it does not):
+    * both `InverseKinematics` overloads return `true` when EITHER the residual at the returned
+      configuration passed its test OR the last step was shorter than `step_tol`.  In the second case
+      nothing is known about the residual: `ik_success_can_have_large_residual`,
+      `ikcs_success_can_have_large_residual` are machine-checked witnesses (target on the extension
+      of a stretched arm: `Jᵀe = 0`, the step is exactly 0, residual 1, tolerance 1e-3).  For the
+      constraint-set overload this is the documented behaviour (Kinematics.h: "If error_norm is still
+      larger than constraint_tol then this usually means that the target is unreachable"); the
+      reported `error_norm` is honest, but after a step exit it is the residual at the configuration
+      BEFORE the last step.  The point-target overload reports nothing and compares the residual with
+      `step_tol` (it has no other tolerance).
+    * `CalcAngularVelocityfromMatrix` returns 0 for a half turn (its third branch is unreachable for
+      finite input), so an orientation constraint that is off by exactly π counts as satisfied:
+      `ikcs_half_turn_counts_as_solved`.
+    * `CalcAssemblyQ`: `true` always means that the recomputed position error passed the test.
+-/
 namespace Rbdl.C17
-open Lean.Grind Rbdl
-variable {α : Type} [CommRing α]
-theorem placeholder_rot_one : (M3.one : M3 α).IsRot := M3.isRot_one
+open Lean.Grind Rbdl Rbdl.Iter Rbdl.L17
+set_option linter.unusedSectionVars false
+
+/-! ## 1. the norm test -/
+section order
+open Std
+variable {α : Type} [Lean.Grind.Field α] [LE α] [LT α] [LawfulOrderLT α] [IsLinearOrder α] [Lean.Grind.OrderedRing α]
+
+/-- the modelled test on the squared norm is the C++ test on the norm -/
+theorem norm_test_is_cpp_test (s2 r tol : α) (hr : 0 ≤ r) (hs : r * r = s2) :
+    normLt s2 tol ↔ r < tol := normLt_iff_root s2 r tol hr hs
+example : normLt (9 / 25 : Rat) (4 / 5) ↔ (3 / 5 : Rat) < 4 / 5 :=
+  norm_test_is_cpp_test _ _ _ (by decide +kernel) (by decide +kernel)
+
+/-- the test is monotone in the tolerance -/
+theorem norm_test_monotone (s2 t t' : α) (htt : t ≤ t') (h : normLt s2 t) : normLt s2 t' :=
+  normLt_mono s2 t t' htt h
+example : normLt (1 / 4 : Rat) 2 :=
+  norm_test_monotone _ 1 2 (by decide +kernel) (by decide +kernel)
+
+/-- a passed test bounds every component of the tested vector -/
+theorem norm_test_componentwise (n : Nat) (v : VecN α) (tol : α) (h : normLt (sqNorm n v) tol)
+    (i : Nat) (hi : i < n) : v i * v i < tol * tol := by
+  have h1 := sqNorm_component n v i hi
+  have h2 := h.2
+  grind
+example : (1 / 2 : Rat) * (1 / 2) < 1 * 1 :=
+  norm_test_componentwise 2 (fun _ => 1 / 2) 1 (by decide +kernel) 0 (by decide)
+
+end order
+
+/-! ## 2. `InverseKinematics`, point targets -/
+section ik
+variable {α : Type} [Lean.Grind.Field α] [DecidableEq α] [LT α] [DecidableLT α]
+
+/-- **soundness of a reported success, for every solver and every iteration cap**: the run left in
+    pass `n < max_iter` from a state `sp` reached by `n` fall-through passes, and EITHER the returned
+    configuration is `sp.Q` and its recomputed residual passed the test (against `step_tol`: this
+    overload has no other tolerance), OR the returned configuration is `sp.Q + Δ` with `|Δ| < step_tol`
+    and the residual at `sp.Q` did NOT pass — nothing is known about the residual at the returned
+    configuration in that case. -/
+theorem ik_success_sound (solve : Solver α) (trig : α → α × α) (m : ModelS α) (w : WS α) (Qinit : VecN α)
+    (tg : List (PointTarget α)) (stepTol lambda : α) (maxIter n : Nat) (s' : IKState α)
+    (h : inverseKinematics solve trig m w Qinit tg stepTol lambda maxIter = (true, n, s')) :
+    n < maxIter ∧ ∃ sp : IKState α,
+      Reach (fun _ => ikBody solve trig m tg stepTol lambda) n 0 ⟨w, Qinit⟩ sp ∧
+      ((s'.Q = sp.Q ∧ normLt (ikResidual2 trig m sp.w tg s'.Q) stepTol) ∨
+       (s'.Q = addStep m.qdotSize sp.Q (ikDelta solve trig m tg lambda sp) ∧
+        normLt (sqNorm m.qdotSize (ikDelta solve trig m tg lambda sp)) stepTol ∧
+        ¬ normLt (ikResidual2 trig m sp.w tg sp.Q) stepTol)) := by
+  obtain ⟨_, h2, sp, hr, hd⟩ := runLoop_true _ _ _ _ _ _ h
+  rw [Nat.sub_zero] at hr
+  exact ⟨by omega, sp, hr, ikBody_done solve trig m tg stepTol lambda sp s' hd⟩
+example := ik_success_sound Ex.diagSolve Ex.trig0 Ex.m1 Ex.w1 Ex.Q0 Ex.tgHere (1/1000) (1/100) 5 _ _
+  (Ex.eta3 Ex.ikHere true Ex.ikHere_ok.1)
+example := ik_success_sound Ex.diagSolve Ex.trig0 Ex.m1 Ex.w1 Ex.Q0 Ex.tgFar (1/1000) (1/100) 5 _ _
+  (Ex.eta3 Ex.ikFar true Ex.ikFar_witness.1)
+
+/-- **the second alternative is real**: with an exact solver, success is reported (pass 0, zero step)
+    for a configuration whose squared residual is `1` against a tolerance of `1e-3` -/
+theorem ik_success_can_have_large_residual :
+    (inverseKinematics Ex.diagSolve Ex.trig0 Ex.m1 Ex.w1 Ex.Q0 Ex.tgFar (1/1000) (1/100) 5).1 = true ∧
+    ikResidual2 Ex.trig0 Ex.m1 Ex.w1 Ex.tgFar
+      (inverseKinematics Ex.diagSolve Ex.trig0 Ex.m1 Ex.w1 Ex.Q0 Ex.tgFar (1/1000) (1/100) 5).2.2.Q = 1 ∧
+    ¬ normLt (1 : Rat) (1/1000) :=
+  ⟨Ex.ikFar_witness.1, Ex.ikFar_witness.2.2.2.1, Ex.ikFar_witness.2.2.2.2⟩
+
+/-- **failure**: all `max_iter` passes were made, none passed a test, and the output is the last
+    iterate -/
+theorem ik_failure (solve : Solver α) (trig : α → α × α) (m : ModelS α) (w : WS α) (Qinit : VecN α)
+    (tg : List (PointTarget α)) (stepTol lambda : α) (maxIter n : Nat) (s' : IKState α)
+    (h : inverseKinematics solve trig m w Qinit tg stepTol lambda maxIter = (false, n, s')) :
+    n = maxIter ∧ Reach (fun _ => ikBody solve trig m tg stepTol lambda) maxIter 0 ⟨w, Qinit⟩ s' := by
+  obtain ⟨h1, hr⟩ := runLoop_false _ _ _ _ _ _ h
+  exact ⟨by omega, hr⟩
+example := ik_failure Ex.onesSolve Ex.trig0 Ex.m1 Ex.w1 Ex.Q0 Ex.tgSide (1/1000) (1/100) 5 _ _
+  (Ex.eta3 Ex.ikSide false Ex.ikSide_fail.1)
+
+/-- **size**: whatever is returned, entries of `Qres` at indices `≥ qdot_size` are the caller's
+    (the routine adds a `qdot_size`-sized step to `Qres`: it is only meaningful for `q_size = qdot_size`) -/
+theorem ik_size (solve : Solver α) (trig : α → α × α) (m : ModelS α) (w : WS α) (Qinit : VecN α)
+    (tg : List (PointTarget α)) (stepTol lambda : α) (maxIter : Nat) (j : Nat) (hj : m.qdotSize ≤ j) :
+    (inverseKinematics solve trig m w Qinit tg stepTol lambda maxIter).2.2.Q j = Qinit j :=
+  runLoop_inv _ (fun (s : IKState α) => s.Q j = Qinit j)
+    (fun _ s s1 hs hb => by rw [ikBody_size solve trig m tg stepTol lambda s s1 (Or.inr hb) j hj]; exact hs)
+    (fun _ s s1 hs hb => by rw [ikBody_size solve trig m tg stepTol lambda s s1 (Or.inl hb) j hj]; exact hs)
+    maxIter 0 (⟨w, Qinit⟩ : IKState α) rfl
+example : Ex.ikSide.2.2.Q 7 = Ex.Q0 7 := ik_size _ _ _ _ _ _ _ _ _ 7 (by decide)
+
+end ik
+
+section ikorder
+open Std
+variable {α : Type} [Lean.Grind.Field α] [DecidableEq α] [LE α] [LT α] [DecidableLT α] [LawfulOrderLT α]
+  [IsLinearOrder α] [Lean.Grind.OrderedRing α]
+
+/-- **the termination test honours the tolerance**: a run that succeeds in pass `n` with `step_tol = t`
+    succeeds in a pass `n' ≤ n` with any `t' ≥ t` -/
+theorem ik_tolerance_monotone (solve : Solver α) (trig : α → α × α) (m : ModelS α) (w : WS α)
+    (Qinit : VecN α) (tg : List (PointTarget α)) (t t' lambda : α) (htt : t ≤ t') (maxIter n : Nat)
+    (s' : IKState α) (h : inverseKinematics solve trig m w Qinit tg t lambda maxIter = (true, n, s')) :
+    ∃ n' s'', n' ≤ n ∧ inverseKinematics solve trig m w Qinit tg t' lambda maxIter = (true, n', s'') := by
+  apply runLoop_dominates _ _ _ maxIter 0 _ n s' h
+  intro it s
+  simp only [ikBody_eq]
+  constructor
+  · intro s1 h1
+    split at h1
+    · next c => rw [if_pos (normLt_mono _ t t' htt c)]; exact ⟨_, rfl⟩
+    · next c =>
+      split at h1
+      · next c2 =>
+        by_cases c' : normLt (ikResidual2 trig m s.w tg s.Q) t'
+        · rw [if_pos c']; exact ⟨_, rfl⟩
+        · rw [if_neg c', if_pos (normLt_mono _ t t' htt c2)]; exact ⟨_, rfl⟩
+      · cases h1
+  · intro s1 h1
+    split at h1
+    · cases h1
+    · next c =>
+      split at h1
+      · cases h1
+      · next c2 =>
+        cases h1
+        by_cases c' : normLt (ikResidual2 trig m s.w tg s.Q) t'
+        · right; rw [if_pos c']; exact ⟨_, rfl⟩
+        · rw [if_neg c']
+          by_cases c2' : normLt (sqNorm m.qdotSize (ikDelta solve trig m tg lambda s)) t'
+          · right; rw [if_pos c2']; exact ⟨_, rfl⟩
+          · left; rw [if_neg c2']
+example := ik_tolerance_monotone Ex.diagSolve Ex.trig0 Ex.m1 Ex.w1 Ex.Q0 Ex.tgHere (1/1000) 1 (1/100)
+  (by decide +kernel) 5 _ _ (Ex.eta3 Ex.ikHere true Ex.ikHere_ok.1)
+
+end ikorder
+
+/-! ## 3. `InverseKinematics`, constraint set -/
+section ikcs
+variable {α : Type} [Lean.Grind.Field α] [DecidableEq α] [LT α] [DecidableLT α]
+
+/-- **soundness of a reported success, for every solver and every `max_steps`**: `num_steps = n <
+    max_steps`, the run left from a state `sp` reached by `n` fall-through passes, and EITHER the
+    returned configuration is `sp.Q`, the reported `error_norm²` is its recomputed residual and passed
+    the test against `constraint_tol`, OR the returned configuration is `sp.Q + Δ` with the reported
+    `delta_q_norm² = |Δ|²` below `step_tol²`, and the reported `error_norm²` is the residual at `sp.Q`
+    — the configuration BEFORE the last step — which did NOT pass the test. -/
+theorem ikcs_success_sound (solve : Solver α) (T : Transc α) (trig : α → α × α) (m : ModelS α) (w : WS α)
+    (Qinit : VecN α) (S : IKSet α) (en0 dq0 : α) (n : Nat) (s' : IKCSState α)
+    (h : inverseKinematicsCS solve T trig m w Qinit S en0 dq0 = (true, n, s')) :
+    n < S.maxSteps ∧ ∃ sp : IKCSState α,
+      Reach (fun _ => ikcsBody solve T trig m S) n 0 ⟨w, Qinit, en0, dq0⟩ sp ∧
+      ((s'.Q = sp.Q ∧ s'.errorNorm2 = ikcsResidual2 T trig m sp.w S s'.Q ∧
+          normLt s'.errorNorm2 S.constraintTol) ∨
+       (s'.Q = addStep m.qdotSize sp.Q (ikcsDelta solve T trig m S sp) ∧
+          s'.deltaQNorm2 = sqNorm m.qdotSize (ikcsDelta solve T trig m S sp) ∧
+          normLt s'.deltaQNorm2 S.stepTol ∧
+          s'.errorNorm2 = ikcsResidual2 T trig m sp.w S sp.Q ∧
+          ¬ normLt s'.errorNorm2 S.constraintTol)) := by
+  obtain ⟨_, h2, sp, hr, hd⟩ := runLoop_true _ _ _ _ _ _ h
+  rw [Nat.sub_zero] at hr
+  exact ⟨by omega, sp, hr, ikcsBody_done solve T trig m S sp s' hd⟩
+example := ikcs_success_sound Ex.diagSolve Ex.transc0 Ex.trig0 Ex.m1 Ex.w1 Ex.Q0 Ex.setHere 0 0 _ _
+  (Ex.eta3 Ex.csHere true Ex.csHere_ok.1)
+example := ikcs_success_sound Ex.diagSolve Ex.transc0 Ex.trig0 Ex.m1 Ex.w1 Ex.Q0 Ex.setFar 0 0 _ _
+  (Ex.eta3 Ex.csFar true Ex.csFar_witness.1)
+
+/-- **the step exit is real**: exact solver, success in pass 0, reported `error_norm² = 1`
+    (`constraint_tol = 1e-3`), recomputed residual `1` -/
+theorem ikcs_success_can_have_large_residual :
+    (inverseKinematicsCS Ex.diagSolve Ex.transc0 Ex.trig0 Ex.m1 Ex.w1 Ex.Q0 Ex.setFar 0 0).1 = true ∧
+    (inverseKinematicsCS Ex.diagSolve Ex.transc0 Ex.trig0 Ex.m1 Ex.w1 Ex.Q0 Ex.setFar 0 0).2.2.errorNorm2 = 1 ∧
+    ikcsResidual2 Ex.transc0 Ex.trig0 Ex.m1 Ex.w1 Ex.setFar
+      (inverseKinematicsCS Ex.diagSolve Ex.transc0 Ex.trig0 Ex.m1 Ex.w1 Ex.Q0 Ex.setFar 0 0).2.2.Q = 1 :=
+  ⟨Ex.csFar_witness.1, Ex.csFar_witness.2.2.1, Ex.csFar_witness.2.2.2.2⟩
+
+/-- **half turn**: an orientation constraint whose target differs from the body orientation by a
+    rotation of π about z is reported as solved in pass 0 with `error_norm = 0`; the returned
+    configuration is the initial guess, the orientation there is the identity, not the target -/
+theorem ikcs_half_turn_counts_as_solved :
+    (inverseKinematicsCS Ex.diagSolve Ex.transc0 Ex.trig0 Ex.m1 Ex.w1 Ex.Q0 Ex.setTurn 0 0).1 = true ∧
+    (inverseKinematicsCS Ex.diagSolve Ex.transc0 Ex.trig0 Ex.m1 Ex.w1 Ex.Q0 Ex.setTurn 0 0).2.2.errorNorm2 = 0 ∧
+    (calcBodyWorldOrientation Ex.m1 Ex.w1 (mkQS Ex.trig0
+      (inverseKinematicsCS Ex.diagSolve Ex.transc0 Ex.trig0 Ex.m1 Ex.w1 Ex.Q0 Ex.setTurn 0 0).2.2.Q) 1 true).2
+        = M3.one ∧
+    (M3.one : M3 Rat) ≠ Ex.halfTurn :=
+  ⟨Ex.csTurn_witness.1, Ex.csTurn_witness.2.2.1, Ex.csTurn_witness.2.2.2.2.1, Ex.csTurn_witness.2.2.2.2.2⟩
+
+/-- the cause, for every choice of the transcendental functions with `sqrt 0 = 0`: the modelled
+    `CalcAngularVelocityfromMatrix` maps the half turn about z to the zero vector -/
+theorem angular_velocity_of_half_turn (T : Transc Rat) (h0 : T.sqrt 0 = 0) :
+    angularVelocityFromMatrix T Ex.halfTurn = V3.zero := by
+  have e : (⟨Ex.halfTurn.m21 - Ex.halfTurn.m12, Ex.halfTurn.m02 - Ex.halfTurn.m20,
+      Ex.halfTurn.m10 - Ex.halfTurn.m01⟩ : V3 Rat).dot
+      ⟨Ex.halfTurn.m21 - Ex.halfTurn.m12, Ex.halfTurn.m02 - Ex.halfTurn.m20,
+      Ex.halfTurn.m10 - Ex.halfTurn.m01⟩ = 0 := by decide +kernel
+  unfold angularVelocityFromMatrix
+  simp only [e, h0]
+  rw [if_neg (by decide +kernel), if_pos (Or.inr (by decide +kernel))]
+example : angularVelocityFromMatrix Ex.transc0 Ex.halfTurn = V3.zero :=
+  angular_velocity_of_half_turn Ex.transc0 rfl
+
+/-- **failure**: `num_steps = max_steps`, all passes fell through, the output is the last iterate -/
+theorem ikcs_failure (solve : Solver α) (T : Transc α) (trig : α → α × α) (m : ModelS α) (w : WS α)
+    (Qinit : VecN α) (S : IKSet α) (en0 dq0 : α) (n : Nat) (s' : IKCSState α)
+    (h : inverseKinematicsCS solve T trig m w Qinit S en0 dq0 = (false, n, s')) :
+    n = S.maxSteps ∧ Reach (fun _ => ikcsBody solve T trig m S) S.maxSteps 0 ⟨w, Qinit, en0, dq0⟩ s' := by
+  obtain ⟨h1, hr⟩ := runLoop_false _ _ _ _ _ _ h
+  exact ⟨by omega, hr⟩
+example := ikcs_failure Ex.onesSolve Ex.transc0 Ex.trig0 Ex.m1 Ex.w1 Ex.Q0 Ex.setSide 0 0 _ _
+  (Ex.eta3 Ex.csSide false Ex.csSide_fail.1)
+
+/-- **size**: entries of `Qres` at indices `≥ qdot_size` are the caller's, whatever is returned -/
+theorem ikcs_size (solve : Solver α) (T : Transc α) (trig : α → α × α) (m : ModelS α) (w : WS α)
+    (Qinit : VecN α) (S : IKSet α) (en0 dq0 : α) (j : Nat) (hj : m.qdotSize ≤ j) :
+    (inverseKinematicsCS solve T trig m w Qinit S en0 dq0).2.2.Q j = Qinit j :=
+  runLoop_inv _ (fun (s : IKCSState α) => s.Q j = Qinit j)
+    (fun _ s s1 hs hb => by rw [ikcsBody_size solve T trig m S s s1 (Or.inr hb) j hj]; exact hs)
+    (fun _ s s1 hs hb => by rw [ikcsBody_size solve T trig m S s s1 (Or.inl hb) j hj]; exact hs)
+    S.maxSteps 0 (⟨w, Qinit, en0, dq0⟩ : IKCSState α) rfl
+example : Ex.csSide.2.2.Q 3 = Ex.Q0 3 := ikcs_size _ _ _ _ _ _ _ _ _ 3 (by decide)
+
+/-- **the residual test reads `constraint_tol` and nothing else**: if the recomputed residual passes the
+    test against `constraint_tol`, the pass returns `true` with the unchanged configuration whatever
+    `step_tol` is (the defect fixed in /repo compared the residual with `step_tol`) -/
+theorem ikcs_residual_test_uses_constraint_tol (solve : Solver α) (T : Transc α) (trig : α → α × α)
+    (m : ModelS α) (S : IKSet α) (st : α) (s : IKCSState α)
+    (h : normLt (ikcsResidual2 T trig m s.w S s.Q) S.constraintTol) :
+    ikcsBody solve T trig m { S with stepTol := st } s =
+      .done ⟨ikcsWs' T trig m S s, s.Q, ikcsResidual2 T trig m s.w S s.Q, s.deltaQNorm2⟩ := by
+  rw [ikcsBody_eq]
+  exact if_pos h
+example := ikcs_residual_test_uses_constraint_tol Ex.diagSolve Ex.transc0 Ex.trig0 Ex.m1 Ex.setHere 77
+  ⟨Ex.w1, Ex.Q0, 0, 0⟩ (by decide +kernel)
+
+/-- **the step test reads `step_tol` and nothing else**: if the residual does not pass, the pass returns
+    `true` exactly if the step (which does not depend on any tolerance) passes the test against
+    `step_tol` -/
+theorem ikcs_step_test_uses_step_tol (solve : Solver α) (T : Transc α) (trig : α → α × α)
+    (m : ModelS α) (S : IKSet α) (s : IKCSState α)
+    (h : ¬ normLt (ikcsResidual2 T trig m s.w S s.Q) S.constraintTol) :
+    (∃ s', ikcsBody solve T trig m S s = .done s') ↔
+      normLt (sqNorm m.qdotSize (ikcsDelta solve T trig m S s)) S.stepTol := by
+  rw [ikcsBody_eq, if_neg h]
+  constructor
+  · rintro ⟨s', h'⟩
+    split at h'
+    · next c => exact c
+    · cases h'
+  · intro c
+    rw [if_pos c]; exact ⟨_, rfl⟩
+example := ikcs_step_test_uses_step_tol Ex.diagSolve Ex.transc0 Ex.trig0 Ex.m1 Ex.setFar
+  ⟨Ex.w1, Ex.Q0, 0, 0⟩ (by decide +kernel)
+
+end ikcs
+
+section ikcsorder
+open Std
+variable {α : Type} [Lean.Grind.Field α] [DecidableEq α] [LE α] [LT α] [DecidableLT α] [LawfulOrderLT α]
+  [IsLinearOrder α] [Lean.Grind.OrderedRing α]
+
+/-- **monotone in both tolerances**: a run that succeeds with `num_steps = n` succeeds with
+    `num_steps ≤ n` when `constraint_tol` and / or `step_tol` are enlarged -/
+theorem ikcs_tolerance_monotone (solve : Solver α) (T : Transc α) (trig : α → α × α) (m : ModelS α)
+    (w : WS α) (Qinit : VecN α) (S : IKSet α) (ct' st' : α) (hct : S.constraintTol ≤ ct')
+    (hst : S.stepTol ≤ st') (en0 dq0 : α) (n : Nat) (s' : IKCSState α)
+    (h : inverseKinematicsCS solve T trig m w Qinit S en0 dq0 = (true, n, s')) :
+    ∃ n' s'', n' ≤ n ∧
+      inverseKinematicsCS solve T trig m w Qinit { S with constraintTol := ct', stepTol := st' } en0 dq0
+        = (true, n', s'') := by
+  apply runLoop_dominates _ _ _ S.maxSteps 0 _ n s' h
+  intro it s
+  simp only [ikcsBody_eq]
+  have hi := ikcs_indep solve T trig m S st' ct' S.maxSteps s
+  simp only at hi
+  obtain ⟨e1, e2, e3⟩ := hi
+  constructor
+  · intro s1 h1
+    split at h1
+    · next c => rw [if_pos (by rw [e1]; exact normLt_mono _ _ _ hct c)]; exact ⟨_, rfl⟩
+    · next c =>
+      split at h1
+      · next c2 =>
+        by_cases c' : normLt (ikcsResidual2 T trig m s.w { S with constraintTol := ct', stepTol := st' } s.Q) ct'
+        · rw [if_pos c']; exact ⟨_, rfl⟩
+        · rw [if_neg c', if_pos (by rw [e2]; exact normLt_mono _ _ _ hst c2)]; exact ⟨_, rfl⟩
+      · cases h1
+  · intro s1 h1
+    split at h1
+    · cases h1
+    · next c =>
+      split at h1
+      · cases h1
+      · next c2 =>
+        cases h1
+        by_cases c' : normLt (ikcsResidual2 T trig m s.w { S with constraintTol := ct', stepTol := st' } s.Q) ct'
+        · right; rw [if_pos c']; exact ⟨_, rfl⟩
+        · rw [if_neg c']
+          by_cases c2' : normLt (sqNorm m.qdotSize
+              (ikcsDelta solve T trig m { S with constraintTol := ct', stepTol := st' } s)) st'
+          · right; rw [if_pos c2']; exact ⟨_, rfl⟩
+          · left; rw [if_neg c2', e1, e2, e3]
+example := ikcs_tolerance_monotone Ex.diagSolve Ex.transc0 Ex.trig0 Ex.m1 Ex.w1 Ex.Q0 Ex.setHere 1 1
+  (by decide +kernel) (by decide +kernel) 0 0 _ _ (Ex.eta3 Ex.csHere true Ex.csHere_ok.1)
+
+end ikcsorder
+
+/-! ## 4. `CalcAssemblyQ` -/
+section asm
+variable {α : Type} [Lean.Grind.Field α] [DecidableEq α] [LT α] [DecidableLT α]
+
+/-- **soundness of a reported success, for every solver and every `max_iter`**: the error vector held
+    at return is the constraint position error recomputed at the returned configuration (from some
+    workspace `w0` and previous contents `e0` of the error vector), and it passed the test; if the run
+    left inside the loop the last step passed the test as well -/
+theorem assemblyQ_success_sound (solve : Solver α) (sqrt : α → α) (trig : α → α × α) (m : ModelS α)
+    (w : WS α) (Qinit : List α) (C : CSet α) (wts : VecN α) (tol : α) (maxIter n : Nat)
+    (s' : AsmState α)
+    (h : calcAssemblyQ solve sqrt trig m w Qinit C wts tol maxIter = (true, n, s')) :
+    (∃ w0 e0, s'.e = asmError trig m w0 C e0 s'.Q) ∧ normLt (sqNorm C.size s'.e) tol ∧
+    (s'.Q = Qinit ∨ normLt (sqNorm m.dofCount s'.d) tol) := by
+  unfold calcAssemblyQ at h
+  simp only at h
+  split at h
+  · next c =>
+    cases h
+    exact ⟨⟨w, fun _ => 0, rfl⟩, c, Or.inl rfl⟩
+  · obtain ⟨_, _, sp, _, hd⟩ := runLoop_true _ _ _ _ _ _ h
+    have hs := asmBody_state solve sqrt trig m C wts tol sp s' (Or.inl hd)
+    have ht := asmBody_done solve sqrt trig m C wts tol sp s' hd
+    exact ⟨⟨_, _, hs.2.1⟩, ht.1, Or.inr ht.2⟩
+example := assemblyQ_success_sound Ex.noSolve Ex.one1 Ex.trig0 Ex.m2 Ex.w1 Ex.Qquat CSet.empty Ex.wts3 1 1 _ _
+  (Ex.eta3 Ex.asmOk true Ex.asmOk_eq.1)
+
+/-- one pass that returns `true` (the in-loop exit of `assemblyQ_success_sound`) -/
+example : ∃ s', asmBody Ex.noSolve Ex.one1 Ex.trig0 Ex.m2 (CSet.empty : CSet Rat) Ex.wts3 1
+    ⟨Ex.w1, Ex.Qquat, fun _ => 0, fun _ => 0⟩ = .done s' := by
+  rw [asmBody_eq]
+  simp only
+  rw [if_pos (by decide +kernel)]
+  exact ⟨_, rfl⟩
+
+/-- **failure**: the initial test failed, all `max_iter` passes fell through, the output is the last
+    iterate -/
+theorem assemblyQ_failure (solve : Solver α) (sqrt : α → α) (trig : α → α × α) (m : ModelS α)
+    (w : WS α) (Qinit : List α) (C : CSet α) (wts : VecN α) (tol : α) (maxIter n : Nat)
+    (s' : AsmState α)
+    (h : calcAssemblyQ solve sqrt trig m w Qinit C wts tol maxIter = (false, n, s')) :
+    n = maxIter ∧ ¬ normLt (sqNorm C.size (asmError trig m w C (fun _ => 0) Qinit)) tol ∧
+    ∃ s0 : AsmState α, s0.Q = Qinit ∧
+      Reach (fun _ => asmBody solve sqrt trig m C wts tol) maxIter 0 s0 s' := by
+  unfold calcAssemblyQ at h
+  simp only at h
+  split at h
+  · cases h
+  · next c =>
+    obtain ⟨h1, hr⟩ := runLoop_false _ _ _ _ _ _ h
+    exact ⟨by omega, c, _, rfl, hr⟩
+example := assemblyQ_failure Ex.noSolve Ex.one1 Ex.trig0 Ex.m2 Ex.w1 Ex.Qquat CSet.empty Ex.wts3 0 1 _ _
+  (Ex.eta3 Ex.asmFail false Ex.asmFail_eq.1)
+
+/-- **size**: the returned configuration has as many entries as the initial guess, whatever the outcome -/
+theorem assemblyQ_size (solve : Solver α) (sqrt : α → α) (trig : α → α × α) (m : ModelS α)
+    (w : WS α) (Qinit : List α) (C : CSet α) (wts : VecN α) (tol : α) (maxIter : Nat) :
+    (calcAssemblyQ solve sqrt trig m w Qinit C wts tol maxIter).2.2.Q.length = Qinit.length := by
+  unfold calcAssemblyQ
+  simp only
+  split
+  · rfl
+  · apply runLoop_inv _ (fun (s : AsmState α) => s.Q.length = Qinit.length)
+    · intro _ s s1 hs hb
+      rw [(asmBody_state solve sqrt trig m C wts tol s s1 (Or.inr hb)).1]
+      unfold asmQ'; rw [assemblyUpdate_length]; exact hs
+    · intro _ s s1 hs hb
+      rw [(asmBody_state solve sqrt trig m C wts tol s s1 (Or.inl hb)).1]
+      unfold asmQ'; rw [assemblyUpdate_length]; exact hs
+    · rfl
+example : Ex.asmFail.2.2.Q.length = 4 := assemblyQ_size _ _ _ _ _ _ _ _ _ _
+
+/-- **unit quaternions**: after every pass (whichever way it ends, whatever the solver returned) the
+    quaternion of a spherical joint `i` in the new configuration is `quatStep` of the old one, and has
+    unit norm PROVIDED the value `r` the normalisation divides by is a non-zero root of the squared
+    norm, `r² = |quat + quat.omegaToQDot(ω)|²` (a field has no square root; `sqrt` is a parameter).
+    The structural hypotheses (the four slots of joint `i` are different entries of the vector and no
+    other joint writes to them) follow from the invariant of `Model` (C14). -/
+theorem assemblyQ_pass_unit_quaternion (solve : Solver α) (sqrt : α → α) (trig : α → α × α) (m : ModelS α)
+    (C : CSet α) (wts : VecN α) (tol : α) (s s' : AsmState α)
+    (hpass : asmBody solve sqrt trig m C wts tol s = .done s' ∨ asmBody solve sqrt trig m C wts tol s = .next s')
+    (i : Nat) (hi : i < m.joints.length) (hs : (m.joint i).jt = .spherical)
+    (hlen : ∀ a ∈ slots m i, a < s.Q.length)
+    (hw : m.w3 i ≠ (m.joint i).qIndex ∧ m.w3 i ≠ (m.joint i).qIndex + 1 ∧ m.w3 i ≠ (m.joint i).qIndex + 2)
+    (hdisj : ∀ j, j < m.joints.length → j ≠ i → ∀ a ∈ slots m i, a ∉ slots m j)
+    (p : Quat α)
+    (hp : p = quatPre (getQuaternionL m i s.Q)
+      ⟨asmD solve trig m C wts s (m.joint i).qIndex, asmD solve trig m C wts s ((m.joint i).qIndex + 1),
+       asmD solve trig m C wts s ((m.joint i).qIndex + 2)⟩)
+    (hr : sqrt p.nrm2 * sqrt p.nrm2 = p.nrm2) (h0 : sqrt p.nrm2 ≠ 0) :
+    (getQuaternionL m i s'.Q).nrm2 = 1 := by
+  rw [(asmBody_state solve sqrt trig m C wts tol s s' hpass).1]
+  exact assemblyUpdate_unit sqrt m _ i s.Q hi hs hlen hw hdisj p hp hr h0
+/-- a pass from the unit quaternion `(0, 0, 3/5, 4/5)` with a solver that returns nothing: it falls
+    through, and the hypotheses of `assemblyQ_pass_unit_quaternion` hold (`sqrt := fun _ => 1`) -/
+example : (∃ s', asmBody Ex.noSolve Ex.one1 Ex.trig0 Ex.m2 (CSet.empty : CSet Rat) Ex.wts3 0
+      ⟨Ex.w1, Ex.Qquat, fun _ => 0, fun _ => 0⟩ = .next s') ∧
+    ∀ s', asmBody Ex.noSolve Ex.one1 Ex.trig0 Ex.m2 (CSet.empty : CSet Rat) Ex.wts3 0
+      ⟨Ex.w1, Ex.Qquat, fun _ => 0, fun _ => 0⟩ = .next s' → (getQuaternionL Ex.m2 1 s'.Q).nrm2 = 1 := by
+  constructor
+  · rw [asmBody_eq]
+    simp only
+    rw [if_neg (by decide +kernel)]
+    exact ⟨_, rfl⟩
+  · intro s' h
+    exact assemblyQ_pass_unit_quaternion Ex.noSolve Ex.one1 Ex.trig0 Ex.m2 CSet.empty Ex.wts3 0 _ s'
+      (Or.inr h) 1 (by decide) (by decide) (by decide +kernel) (by decide +kernel) (by
+        intro j hj hne
+        have : j = 0 := by
+          have : Ex.m2.joints.length = 2 := rfl
+          omega
+        subst this; decide +kernel) _ rfl (by decide +kernel) (by decide +kernel)
+
+end asm
+
+section asmorder
+open Std
+variable {α : Type} [Lean.Grind.Field α] [DecidableEq α] [LE α] [LT α] [DecidableLT α] [LawfulOrderLT α]
+  [IsLinearOrder α] [Lean.Grind.OrderedRing α]
+
+/-- **monotone in the tolerance**: a run of `CalcAssemblyQ` that succeeds after `n` passes with tolerance
+    `t` succeeds after `n' ≤ n` passes with any `t' ≥ t` -/
+theorem assemblyQ_tolerance_monotone (solve : Solver α) (sqrt : α → α) (trig : α → α × α) (m : ModelS α)
+    (w : WS α) (Qinit : List α) (C : CSet α) (wts : VecN α) (t t' : α) (htt : t ≤ t') (maxIter n : Nat)
+    (s' : AsmState α)
+    (h : calcAssemblyQ solve sqrt trig m w Qinit C wts t maxIter = (true, n, s')) :
+    ∃ n' s'', n' ≤ n ∧ calcAssemblyQ solve sqrt trig m w Qinit C wts t' maxIter = (true, n', s'') := by
+  unfold calcAssemblyQ at h ⊢
+  simp only at h ⊢
+  split at h
+  · next c =>
+    rw [if_pos (normLt_mono _ t t' htt c)]
+    exact ⟨0, _, Nat.zero_le _, rfl⟩
+  · next c =>
+    split
+    · exact ⟨0, _, Nat.zero_le _, rfl⟩
+    · apply runLoop_dominates _ _ _ maxIter 0 _ n s' h
+      intro it s
+      simp only [asmBody_eq]
+      constructor
+      · intro s1 h1
+        split at h1
+        · next c1 => rw [if_pos ⟨normLt_mono _ t t' htt c1.1, normLt_mono _ t t' htt c1.2⟩]; exact ⟨_, rfl⟩
+        · cases h1
+      · intro s1 h1
+        split at h1
+        · cases h1
+        · next c1 =>
+          cases h1
+          split
+          · right; exact ⟨_, rfl⟩
+          · left; rfl
+example := assemblyQ_tolerance_monotone Ex.noSolve Ex.one1 Ex.trig0 Ex.m2 Ex.w1 Ex.Qquat CSet.empty Ex.wts3 1 2
+  (by decide +kernel) 1 _ _ (Ex.eta3 Ex.asmOk true Ex.asmOk_eq.1)
+end asmorder
+
+/-! ## 5. `CalcAssemblyQDot` -/
+section qdot
+open Std
+variable {α : Type} [Lean.Grind.Field α] [DecidableEq α] [LE α] [LT α] [DecidableLT α] [LawfulOrderLT α]
+  [IsLinearOrder α] [Lean.Grind.OrderedRing α]
+
+/-- **velocity assembly, in the model's terms**: if the vector `x` the black-box solver returned solves
+    the system `[W Gᵀ; G 0] x = [W q̇₀; 0]` the routine assembled (`G` the modelled constraint
+    Jacobian), then the returned velocities have zero constraint velocity error `G q̇ = 0`, and for
+    non-negative weights they are the weighted-least-squares closest to the initial guess among all
+    velocities with `G y = 0` -/
+theorem assemblyQDot_sound (solve : Solver α) (m : ModelS α) (w : WS α) (st : QS α) (qd0 : VecN α)
+    (C : CSet α) (wts : VecN α)
+    (hsol : Solves (m.dofCount + C.size)
+      (kktMatrix m.dofCount wts (calcAssemblyQDot solve m w st qd0 C wts).2.1)
+      (qdotRhs m.dofCount wts qd0) (calcAssemblyQDot solve m w st qd0 C wts).2.2.1)
+    (hw : ∀ i, i < m.dofCount → 0 ≤ wts i) :
+    let G := (calcAssemblyQDot solve m w st qd0 C wts).2.1
+    let qd := (calcAssemblyQDot solve m w st qd0 C wts).2.2.2
+    (∀ r, r < C.size → sumTo m.dofCount (fun j => G r j * qd j) = 0) ∧
+    (∀ y : VecN α, (∀ r, r < C.size → sumTo m.dofCount (fun j => G r j * y j) = 0) →
+      wlsCost m.dofCount wts qd0 qd ≤ wlsCost m.dofCount wts qd0 y) := by
+  intro G qd
+  let x := (calcAssemblyQDot solve m w st qd0 C wts).2.2.1
+  have hqd : ∀ i, i < m.dofCount → qd i = x i := fun i hi => if_pos hi
+  have hfeas : ∀ r, r < C.size → sumTo m.dofCount (fun j => G r j * x j) = 0 := by
+    intro r hr
+    have := kkt_row_bottom m.dofCount C.size wts G _ x hsol r hr
+    rw [this]; simp [qdotRhs]
+  have hstat : ∀ i, i < m.dofCount →
+      wts i * x i + sumTo C.size (fun k => G k i * x (m.dofCount + k)) = wts i * qd0 i := by
+    intro i hi
+    have := kkt_row_top m.dofCount C.size wts G _ x hsol i hi
+    rw [this]; simp [qdotRhs, hi]
+  refine ⟨fun r hr => ?_, fun y hy => ?_⟩
+  · rw [sum_congr _ _ (fun j => G r j * x j) (fun j hj => by rw [hqd j hj])]
+    exact hfeas r hr
+  · have e : wlsCost m.dofCount wts qd0 qd = wlsCost m.dofCount wts qd0 x := by
+      unfold wlsCost
+      exact sum_congr _ _ _ (fun i hi => by rw [hqd i hi])
+    rw [e]
+    exact wls_sum m.dofCount C.size wts G qd0 x (fun k => x (m.dofCount + k)) hw hstat hfeas y hy
+example := assemblyQDot_sound Ex.exactSolve Ex.m3 Ex.w3 (mkQS Ex.trig0 Ex.Q0) Ex.qd0 Ex.cs3 Ex.wts2
+  (fun r hr => Ex.qdotRun_facts.2.2.2.2.2.1 r hr) Ex.qdotRun_facts.2.2.2.2.2.2
+
+end qdot
+
+section matrix
+open Matrix
+variable {K : Type*} {mm nn : Type*} [Fintype mm] [Fintype nn] [DecidableEq nn]
+  [_root_.Field K] [LinearOrder K] [IsStrictOrderedRing K]
+
+/-- **velocity assembly, pure linear algebra** (arbitrary dimensions, Mathlib matrices): a solution
+    `(x, λ)` of `[W Gᵀ; G 0] [x; λ] = [W q̇₀; 0]` with `W = diag w`, `w ≥ 0`, satisfies `G x = 0` and
+    minimises `Σ wᵢ (yᵢ − q̇₀ᵢ)²` over `{y | G y = 0}` -/
+theorem velocity_assembly_wls (w : nn → K) (hw : ∀ i, 0 ≤ w i) (G : Matrix mm nn K) (q0 x : nn → K)
+    (l : mm → K)
+    (h : fromBlocks (diagonal w) Gᵀ G 0 *ᵥ Sum.elim x l = Sum.elim (diagonal w *ᵥ q0) 0) :
+    G *ᵥ x = 0 ∧
+    ∀ y, G *ᵥ y = 0 → ∑ i, w i * ((x i - q0 i) * (x i - q0 i)) ≤ ∑ i, w i * ((y i - q0 i) * (y i - q0 i)) :=
+  wls_optimal_diagonal w hw G q0 x l h
+example := velocity_assembly_wls KEx.w KEx.w_nonneg KEx.G KEx.q0 KEx.x KEx.l KEx.block
+
+/-- … and for positive weights it is the only minimiser -/
+theorem velocity_assembly_wls_unique (w : nn → K) (hw : ∀ i, 0 < w i) (G : Matrix mm nn K) (q0 x : nn → K)
+    (l : mm → K)
+    (h : fromBlocks (diagonal w) Gᵀ G 0 *ᵥ Sum.elim x l = Sum.elim (diagonal w *ᵥ q0) 0)
+    (y : nn → K) (hy : G *ᵥ y = 0)
+    (hc : (y - q0) ⬝ᵥ diagonal w *ᵥ (y - q0) = (x - q0) ⬝ᵥ diagonal w *ᵥ (x - q0)) : y = x := by
+  obtain ⟨h1, h2⟩ := (wls_block _ G q0 x l).mp h
+  refine wls_unique (diagonal w) (isSymm_diagonal w) ?_ G q0 x l h1 h2 y hy hc
+  intro v hv
+  rw [diagonal_quadratic] at hv
+  have hnn : ∀ i ∈ Finset.univ, 0 ≤ w i * (v i * v i) :=
+    fun i _ => mul_nonneg (le_of_lt (hw i)) (mul_self_nonneg (v i))
+  have hz := (Finset.sum_eq_zero_iff_of_nonneg hnn).mp hv
+  funext i
+  have := hz i (Finset.mem_univ i)
+  have h2 : v i * v i = 0 := by
+    rcases mul_eq_zero.mp this with h | h
+    · exact absurd h (ne_of_gt (hw i))
+    · exact h
+  exact mul_self_eq_zero.mp h2
+example := velocity_assembly_wls_unique KEx.w KEx.w_pos KEx.G KEx.q0 KEx.x KEx.l KEx.block KEx.x KEx.feas rfl
+
+end matrix
+
 end Rbdl.C17
